@@ -630,6 +630,16 @@ func (tx *Transaction) GetStopWatch() string {
 func (tx *Transaction) GetField(rv ruleVariableParams) []types.MatchData {
 	col := tx.Collection(rv.Variable)
 	if col == nil {
+		if rv.Count {
+			// &VAR of a variable without collection counts nothing: "0", like an empty collection
+			return []types.MatchData{
+				&corazarules.MatchData{
+					Variable_: rv.Variable,
+					Key_:      rv.KeyStr,
+					Value_:    "0",
+				},
+			}
+		}
 		return []types.MatchData{}
 	}
 
